@@ -84,6 +84,8 @@ def replay(run, cache, tv):
     elif op == "exp_se2":
         c, s, h = tv["cs"]
         th = math.atan2(s, c)
+        if tv.get("wrap"):
+            th = th - 2 * math.pi * (1 if th > 0 else -1)      # same (c, s), angle on the other side, |th| < 2 pi
         rho = np.array(tv["rho"], float)
         p = rho if th == 0 else np.array(tv["vr"], float) / (th * h)
         M = np.eye(3); M[:2, :2] = rm_to_np(tv["exp"]); M[:2, 2] = p
